@@ -272,6 +272,20 @@ def worker_insertions(args):
             stats["insertion_base_not_valid"] += 1
             continue
         stats["insertion_texts"] += 1
+        # indentation by tabs: the NL rule counts spaces only, so the block structure is lost; the
+        # text must be reported invalid, not accepted with some other structure
+        if lname == "plain":
+            tabbed = "\n".join(re.sub(r"^( {4})+", lambda m: "\t" * (len(m.group(0)) // 4), ln)
+                               for ln in text.split("\n"))
+            tr = front_dump.run_front(tabbed)
+            stats["generated"] += 1
+            stats["compared"] += 1
+            if tr["valid"] is True:
+                viol.append({"property": pid, "kind": "front", "sub": "tabs", "text": tabbed,
+                             "why": "text indented with tabs is reported valid"})
+            else:
+                stats["agree"] += 1
+                stats["tab_indented_text_rejected"] += 1
         reg = front_scan.regions(text)
         k = 0
         for pos in sample_positions(text, rng, per_text):
@@ -688,6 +702,10 @@ def replay_front(pid, cfg, payload, workdir):
         return {"fails": verdict == "accepted",
                 "why": "text with %r inserted at %d is %s (valid=%r, errors=%r)"
                        % (ch, pos, verdict, r["valid"], r["out"][:200])}
+    if sub == "tabs":
+        import front_dump
+        r = front_dump.run_front(payload["text"])
+        return {"fails": r["valid"] is True, "why": "valid=%r %s" % (r["valid"], r["out"][:200])}
     if sub == "denter":
         from collections import Counter
 
